@@ -141,6 +141,53 @@ def check_case(case):
     return {"ok": True, "key": key, "cls": cls}
 
 
+def check_conflict(case):
+    """A name the table lists with several offsets (LMT) has no single 'listed offset'; what remains unarguable: the offset is one
+    of the listed ones, the wall clock is the body's, and the *same written zone gives the same offset whatever the body is*
+    (ISO body, twelve 'D Month YYYY HH:MM:SS' bodies, a 12-hour body)."""
+    from dateparser.timezones import timezone_info_list
+    name, mode = case["name"], case["lang"]
+    listed = {secs for n, secs in timezone_info_list[1]["timezones"] if n.lower() == name.lower()}
+    y, d, H, M, S = case["t"]
+    bodies = [("%04d-%02d-%02d %02d:%02d:%02d" % (y, 3, d, H, M, S), [y, 3, d, H, M, S])]
+    for m in range(1, 13):
+        bodies.append(("%d %s %04d %02d:%02d:%02d" % (d, MONTHS[m - 1], y, H, M, S), [y, m, d, H, M, S]))
+    bodies.append(("%s %d, %04d at %d:%02d %s" % (MONTHS[2], d, y, H % 12 or 12, M, "AM" if H < 12 else "PM"), [y, 3, d, H, M, 0]))
+    cls = ["zone:abbr-multiply-listed", "lang:" + mode]
+    seen = {}
+    for b, wall in bodies:
+        s = b + " " + name
+        got = _parser(mode).get_date_data(s).date_obj
+        if got is None or got.tzinfo is None:
+            return {"ok": False, "bucket": "multi-listed:%s:none-or-naive" % name.upper(), "detail": "%r (lang %s) -> %r" % (s, mode, got),
+                    "key": (name, mode), "cls": cls}
+        off = int(got.utcoffset().total_seconds())
+        if off not in listed or got.replace(tzinfo=None) != dt.datetime(*wall):
+            return {"ok": False, "bucket": "multi-listed:%s:not-a-listed-offset-or-wall-clock" % name.upper(),
+                    "detail": "%r (lang %s) -> %r; listed offsets %s" % (s, mode, got, sorted(listed)), "key": (name, mode), "cls": cls}
+        seen.setdefault(off, s)
+    if len(seen) > 1:
+        return {"ok": False, "bucket": "multi-listed:%s:offset-depends-on-the-body" % name.upper(),
+                "detail": "the same written zone %r gives different offsets: %r" % (name, seen), "key": (name, mode), "cls": cls}
+    return {"ok": True, "key": (name, mode, case["t"][0]), "cls": cls}
+
+
+def _conflict_cases(ctx):
+    def it(shard, nshards):
+        _, _, conflicts = vtz.source_tables()
+        i = 0
+        for name in sorted(conflicts):
+            for spelled in (name, name.lower()):
+                for mode in ("en", "auto"):
+                    for j in range(ctx.n(3, 12)):
+                        i += 1
+                        if i % nshards != shard:
+                            continue
+                        h = derive_seed(ctx.seed, "cf", name, j)
+                        yield {"name": spelled, "lang": mode, "t": [1971 + h % 66, 1 + (h >> 16) % 28, (h >> 24) % 24, (h >> 32) % 60, (h >> 40) % 60]}
+    return it
+
+
 def _t(seed, *parts):
     h = derive_seed(seed, *parts)
     y = 1971 + h % 66
@@ -196,4 +243,5 @@ def sampled(draw):
 
 def stages(ctx):
     return [Stage("table_walk", "enum", cases=_walk(ctx), exhaustive=True),
+            Stage("multiply_listed", "enum", cases=_conflict_cases(ctx), exhaustive=True, check=check_conflict),
             Stage("sampled", "hyp", strategy=sampled(), examples=ctx.n(5000, 80000))]
